@@ -61,6 +61,54 @@ pub struct Planner {
     factorized_execution: bool,
 }
 
+/// Join condition of an OPTIONAL MATCH that carries a WHERE: equal join variables and the
+/// predicate true on the combined row.
+struct LeftJoinWhereCondition {
+    /// (left column, right column) of the shared variables
+    keys: Vec<(usize, usize)>,
+    left_count: usize,
+    /// Types of the combined row (left columns, then right columns)
+    schema: Vec<LogicalType>,
+    predicate: ExpressionPredicate,
+}
+
+impl grafeo_core::execution::operators::JoinCondition for LeftJoinWhereCondition {
+    fn evaluate(
+        &self,
+        left_chunk: &grafeo_core::execution::DataChunk,
+        left_row: usize,
+        right_chunk: &grafeo_core::execution::DataChunk,
+        right_row: usize,
+    ) -> bool {
+        use grafeo_core::execution::operators::Predicate;
+        let cell = |chunk: &grafeo_core::execution::DataChunk, col: usize, row: usize| {
+            chunk
+                .column(col)
+                .and_then(|c| c.get_value(row))
+                .unwrap_or(Value::Null)
+        };
+        for &(l, r) in &self.keys {
+            let (lv, rv) = (cell(left_chunk, l, left_row), cell(right_chunk, r, right_row));
+            if matches!(lv, Value::Null) || lv != rv {
+                return false;
+            }
+        }
+        let mut combined = grafeo_core::execution::DataChunk::with_capacity(&self.schema, 1);
+        for i in 0..self.schema.len() {
+            let value = if i < self.left_count {
+                cell(left_chunk, i, left_row)
+            } else {
+                cell(right_chunk, i - self.left_count, right_row)
+            };
+            if let Some(col) = combined.column_mut(i) {
+                col.push_value(value);
+            }
+        }
+        combined.set_count(1);
+        self.predicate.evaluate(&combined, 0)
+    }
+}
+
 impl Planner {
     /// Creates a new planner with the given store.
     ///
@@ -2646,14 +2694,43 @@ impl Planner {
 
         let output_schema = self.derive_schema_from_columns(&columns);
 
-        let operator: Box<dyn Operator> = Box::new(HashJoinOperator::new(
-            left_op,
-            right_op,
-            probe_keys,
-            build_keys.clone(),
-            PhysicalJoinType::Left,
-            output_schema,
-        ));
+        let operator: Box<dyn Operator> = match &left_join.condition {
+            // OPTIONAL MATCH ... WHERE p: p is part of the optional match. A pair of rows joins
+            // only if p holds on the combined row; a left row without such a partner is kept
+            // with the optional variables unbound.
+            Some(condition) => {
+                let left_count = left_columns.len();
+                let mut variable_columns: HashMap<String, usize> = HashMap::new();
+                for (i, name) in columns.iter().enumerate().rev() {
+                    variable_columns.insert(name.clone(), i); // a shared name resolves to the left copy
+                }
+                let predicate = ExpressionPredicate::new(
+                    convert_filter_expression(condition)?,
+                    variable_columns,
+                    Arc::clone(&self.store),
+                );
+                Box::new(NestedLoopJoinOperator::new(
+                    left_op,
+                    right_op,
+                    Some(Box::new(LeftJoinWhereCondition {
+                        keys: probe_keys.iter().copied().zip(build_keys.iter().copied()).collect(),
+                        left_count,
+                        schema: output_schema.clone(),
+                        predicate,
+                    })),
+                    PhysicalJoinType::Left,
+                    output_schema,
+                ))
+            }
+            None => Box::new(HashJoinOperator::new(
+                left_op,
+                right_op,
+                probe_keys,
+                build_keys.clone(),
+                PhysicalJoinType::Left,
+                output_schema,
+            )),
+        };
 
         // The right side repeats the join variables. In a row without a match those copies are
         // NULL, and a later lookup by name would find the NULL copy instead of the left side's
